@@ -67,8 +67,12 @@ sensitivity)
 	rm -f "$VERIF"/replays/*.json
 	exit $missed
 	;;
+model)
+	# unit tests of the reference model
+	cd "$VERIF/sim" && exec cargo test --release --offline
+	;;
 *)
-	echo "usage: selftest.sh <bin> determinism|sensitivity" >&2
+	echo "usage: selftest.sh <bin> determinism|sensitivity|model" >&2
 	exit 2
 	;;
 esac
